@@ -97,6 +97,7 @@ def matrix_build(uncached):
         cell("P", "cg", "Ch.Gc.g0(x) * 2"),
         cell("T", "tq", "_model.P.qobj.qc(x)"),         # object-valued references read by attribute path
         cell("T", "tc", "_model.P.qcell(x)"),
+        cell("T", "tr", "_model.P.Ch.r + x"),            # a reference of a child space read by absolute path
         {"op": "new_space", "name": "I", "formula": {"params": [["p", None]]}},
         {"op": "set_ref", "space": "I", "name": "t", "value": {"lit": 9}, "via": "setattr"},
         {"op": "new_space", "parent": "I", "name": "Ch"},
@@ -155,7 +156,8 @@ MATRIX_EDITS = {
     "new space in Q": {"op": "new_space", "parent": "Q", "name": "Zs"},
     "del P.Ch": {"op": "del_space", "path": "P.Ch"}, "del Q": {"op": "del_space", "path": "Q"},
     "rename Ch": {"op": "rename_space", "path": "P.Ch", "new": "Ch2"},
-    "rename Q": {"op": "rename_space", "path": "Q", "new": "Q2"},
+    "rename Q": {"op": "rename_space", "path": "Q", "new": "Q7"},
+    "rename P": {"op": "rename_space", "path": "P", "new": "P9"}, "del P": {"op": "del_space", "path": "P"},
     "del D": {"op": "del_space", "path": "D"}, "rename D": {"op": "rename_space", "path": "D", "new": "D2"},
     "del B": {"op": "del_space", "path": "B"}, "del I.Ch": {"op": "del_space", "path": "I.Ch"},
     "change B.w": sref("B", "w", 70), "del B.w": {"op": "del_ref", "space": "B", "name": "w"},
@@ -294,6 +296,9 @@ def build_fresh(edits):
     return fresh, res
 
 
+DISAGREE = []
+
+
 def run_case(case):
     case = expand(case)
     reset_session()
@@ -352,6 +357,8 @@ def run_case(case):
                     cnt["refmodel_agree"] += 1
                 else:
                     cnt["refmodel_disagree"] += 1
+                    if len(DISAGREE) < 20:      # (kept for inspection: tools and ad-hoc runs)
+                        DISAGREE.append({"query": q, "model": fv[kq], "reference": rv})
         eff = sum(1 for kq, v in fv.items() if kq in last_vals and _n(last_vals[kq]) != _n(v))
         if eff:
             eff_total += 1
